@@ -98,6 +98,67 @@ fn main() {
             }
             println!("{}", out.finish());
         }
+        "tree" => {
+            // gv tree <corner index> <module name> : the decoded block tree of a corner file as a
+            // TLA+ module (constants of CursorImpl); keys are 2 x rank so that odd numbers probe gaps
+            let idx: usize = args[2].parse().unwrap();
+            let name = args[3].clone();
+            let (cfg, entries) = cursor::corner_files()[idx].clone();
+            let bytes = files::write_file(&cfg, &entries).bytes.expect("corner file must be writable");
+            let raw = decode::decode(&bytes, 22);
+            let rank = |k: &[u8]| -> usize { entries.binary_search_by(|(kk, _)| kk.as_slice().cmp(k)).unwrap() + 1 };
+            let root = u64::from_le_bytes(raw.trailer[0..8].try_into().unwrap());
+            // depth of every block by walking from the root
+            let mut depth = std::collections::HashMap::new();
+            let mut stack = vec![(root, 0u32)];
+            while let Some((off, d)) = stack.pop() {
+                depth.insert(off, d);
+                if d <= cfg.levels as u32 {
+                    let b = raw.blocks.iter().find(|b| b.off == off).unwrap();
+                    for e in &b.entries {
+                        stack.push((u64::from_be_bytes(e.val.as_slice().try_into().unwrap()), d + 1));
+                    }
+                }
+            }
+            let mut blocks = Vec::new();
+            let mut pos = 0usize;
+            for b in &raw.blocks {
+                let d = depth[&b.off];
+                let ents: Vec<String> = b.entries.iter().map(|e| {
+                    let v = if d == cfg.levels as u32 + 1 { pos += 1; pos as u64 } else { u64::from_be_bytes(e.val.as_slice().try_into().unwrap()) };
+                    format!("[k |-> {}, v |-> {}]", 2 * rank(&e.key), v)
+                }).collect();
+                blocks.push(format!("({} :> <<{}>>)", b.off, ents.join(", ")));
+            }
+            println!("---- MODULE {} ----", name);
+            println!("\\* Generated by `gv tree {} {}` from corner file {} ({:?}, {} entries) written by the real writer", idx, name, idx, cfg, entries.len());
+            println!("\\* and decoded by the independent decoder. Block offsets are real file offsets.");
+            println!("EXTENDS CursorImpl, TLC");
+            println!("TBlocks == {}", blocks.join(" @@\n    "));
+            println!("TRoot == {}", root);
+            println!("TLevels == {}", cfg.levels);
+            println!("TDataKeys == [i \\in 1..{} |-> 2 * i]", entries.len());
+            println!("TProbes == 1..{}", 2 * entries.len() + 1);
+            println!("====");
+        }
+        "hist" => {
+            // gv hist <histories.json> --out DIR --shards K [--extend]
+            let doc: serde_json::Value = serde_json::from_str(&std::fs::read_to_string(&args[2]).unwrap()).unwrap();
+            let corner = doc["corner"].as_u64().unwrap() as usize;
+            let hists: Vec<Vec<(String, usize, i64)>> = doc["hists"].as_array().unwrap().iter().map(|h| {
+                h.as_array().unwrap().iter().map(|s| (s[0].as_str().unwrap().to_string(), s[1].as_u64().unwrap() as usize, s[2].as_i64().unwrap())).collect()
+            }).collect();
+            let shards: usize = arg(&args, "--shards", 1);
+            let dir: PathBuf = PathBuf::from(arg(&args, "--out", "out/traces".to_string()));
+            let extend = args.iter().any(|a| a == "--extend");
+            let mut out = TraceOut::new(&dir, "hist", shards);
+            io::reset(io::Sched::Whole, io::Sched::Whole, None);
+            let (compared, drift) = cursor::replay_histories(&mut out, corner, &hists, extend, "hist");
+            let mut v = out.finish();
+            v["model_results_compared"] = compared.into();
+            v["model_result_drift"] = drift.into();
+            println!("{}", v);
+        }
         "one" => {
             let family = args[2].clone();
             let seed: u64 = args[3].parse().unwrap();
